@@ -9,6 +9,12 @@ the histories, perturbs the allocator per shard, attributes sanitizer aborts / h
 has every alarm delta-debugged by the driver (`--shrink`) so that the key is the MINIMAL history, cross-checks the
 canonical outputs between processes (different heap layouts, ASLR, allocator fill bytes) and merges the evidence.
 
+Dimensions added in round 11 (each with measured counters; a run in which one of them observed nothing is inconclusive): CPU
+features passed to init() and fields of the built-in .text section set by the user as junk state; per-function calling convention /
+AVX / AVX-512 / preserved-FP / unavailable-register settings of Compiler functions; the arena watch of the ASan shards (memory that an
+arena retains over a soft reset is poisoned until handed out again, in half of the histories quarantined until the history ends);
+calls on detached emitters compared with emitters that were never attached; emitters that move to a second live holder and back.
+
 Address independence: ASan's allocator puts every section buffer on a 64-byte boundary, which hides any dependence of the
 output on the buffer address. So (a) ASan shards run with max_redzone 16 / 32 / default (buffers at 16 / 32 / 0 mod 64; seen by
 the cross-process comparison) and (b) the same driver is also built PLAIN (glibc malloc, 16-byte granules) and runs as many
@@ -162,9 +168,12 @@ def run(tier, args):
 
     # ---- merge -------------------------------------------------------------------------------------------
     tot = {"histories": 0, "probes": 0, "nontrivial": 0, "fresh_runs": 0, "leak_checks": 0, "cleans": 0, "cleans_with_leftover": 0,
-           "probe_programs_with_errors": 0, "expected_api_errors": 0, "nondet_checks": 0, "state_checks": 0}
-    dicts = {"steps": {}, "probes_by": {}, "progs_probed": {}, "leftover_at_clean": {}, "perturb": {}, "static_sizes": {},
-             "addr": {}, "aligns": {}, "pools": {}, "new_const": {}}
+           "probe_programs_with_errors": 0, "expected_api_errors": 0, "nondet_checks": 0, "state_checks": 0,
+           "probes_after_tweak": 0, "feat_checks": 0, "feat_sensitive": 0, "append_behind_funcs": 0, "append_behind_other_variant": 0,
+           "pokes": 0, "poke_calls": 0, "pokes_own_eh": 0, "pokes_own_logger": 0, "away_runs": 0, "away_compared": 0, "away_spanning_clean": 0}
+    dicts = {"steps": {}, "probes_by": {}, "progs_probed": {}, "progs_err": {}, "leftover_at_clean": {}, "perturb": {}, "static_sizes": {},
+             "addr": {}, "aligns": {}, "pools": {}, "new_const": {}, "init_by": {}, "tweaks": {}, "fn_variants": {}, "fn_cc": {}, "invoke_cc": {},
+             "arena_watch": {}, "poke_by_clean": {}, "away_by": {}}
     residues = {}        # allocator -> which run (recycled / fresh / twin) -> residue mod 64 -> compared runs
     by_alloc = {}        # allocator -> histories, pairs with different residue
     sigs = set()
@@ -316,13 +325,38 @@ def run(tier, args):
                 "distinct = distinct sequence of executed step kinds (operation, emitter kind, program, options - seeds ignored); non-trivial = a "
                 "reset / reinit / detach / emitter destruction happened while state was left over (an earlier error, unbound labels or pending "
                 "fixups, extra sections, relocations / address table, unfinalized builder nodes, pending one-shot state, an open function, a "
-                "relocated image) AND a probe was compared afterwards",
+                "relocated image, fields of .text set by the user) AND a probe was compared afterwards",
         "samples": samples[:5],
         "histories_nontrivial": tot["nontrivial"],
         "probes_compared": tot["probes"],
         "probes_by_mode_kind_arch": probes_by,
         "probe_programs": dicts["progs_probed"],
         "probe_programs_ending_in_errors": tot["probe_programs_with_errors"],
+        "probe_programs_ending_in_errors_by_program": dicts["progs_err"],
+        # -- state the user sets directly: CPU features passed to init() (both overloads), fields of the built-in .text section
+        "holder_initialisations_and_probes_by_cpu_feature_set": dicts["init_by"],
+        "text_section_fields_set_by_user": dicts["tweaks"],
+        "probes_after_a_clean_of_a_holder_with_user_set_text_section_fields": tot["probes_after_tweak"],
+        "compiler_probes_regenerated_under_another_feature_set": tot["feat_checks"],
+        "compiler_probes_whose_output_depends_on_the_feature_set": tot["feat_sensitive"],
+        # -- per-function settings of Compiler functions (calling convention, AVX / AVX-512, preserved FP, unavailable registers)
+        "compiler_functions_by_family_cc_slot_and_frame_attributes": dicts["fn_variants"],
+        "compiler_functions_by_arch_and_calling_convention": dicts["fn_cc"],
+        "invoked_signatures_by_arch_and_calling_convention": dicts["invoke_cc"],
+        "append_probes_behind_unfinalized_functions_of_the_same_compiler": tot["append_behind_funcs"],
+        "append_probes_behind_functions_with_other_settings": tot["append_behind_other_variant"],
+        # -- arena watch (ASan shards): memory retained over a soft reset is poisoned / quarantined
+        "arena_watch": dicts["arena_watch"],
+        # -- detached emitters are called; emitters move to a second live holder and back
+        "detached_emitter_pokes": tot["pokes"],
+        "detached_emitter_calls": tot["poke_calls"],
+        "detached_emitter_pokes_with_own_error_handler": tot["pokes_own_eh"],
+        "detached_emitter_pokes_with_own_logger": tot["pokes_own_logger"],
+        "detached_emitter_pokes_by_operation_that_detached": dicts["poke_by_clean"],
+        "programs_generated_in_a_second_holder": tot["away_runs"],
+        "programs_of_the_second_holder_compared": tot["away_compared"],
+        "programs_of_the_second_holder_spanning_a_clean_of_the_first": tot["away_spanning_clean"],
+        "programs_of_the_second_holder_by_kind_arch": dicts["away_by"],
         "steps_executed_skipped": dicts["steps"],
         "clean_operations": tot["cleans"],
         "clean_operations_with_leftover_state": tot["cleans_with_leftover"],
@@ -352,9 +386,12 @@ def run(tier, args):
         "jobs": len(jobs),
     })
     chk.assumptions += [
-        "ASan/UBSan instrumented build of /repo's working tree; arena memory handed out again after a soft reset is not poisoned, so "
-        "a stale pointer into a retained arena block is only seen when it changes the compared output (hard resets and freed blocks "
-        "are seen by ASan)",
+        "ASan/UBSan instrumented build of /repo's working tree. Arena watch (harness side, ASan shards): the arenas of the recycled "
+        "holder / builders / compilers are registered; at every arena request (fault-point hook H1 used as a notification) and after "
+        "every API call an arena found reset has its retained memory poisoned (ASAN_POISON_MEMORY_REGION) until it is handed out again; "
+        "in half of the histories the retained blocks are taken away and quarantined poisoned until the history ends, so a stale "
+        "pointer is reported even after the arena would have reused the memory. A stale use BEFORE the next arena request / API call "
+        "that follows the reset, or (non-quarantine histories) of memory already handed out again, is only seen through the output",
         "the fresh control uses the canonical configuration (dynamic arena, no logger, no error handler, no RA diagnostics) but the SAME "
         "validation options and base address as the recycled holder: validation legitimately changes which error an invalid program "
         "reports, and reinit() documents that it keeps the base address",
@@ -370,6 +407,25 @@ def run(tier, args):
         "keeping blocks (up to 3 regenerations); steering changes heap layout only, never the script",
     ]
     rc = chk.finish()
+    if rc == 0 and not args.replay:
+        aw = dicts["arena_watch"]
+        nothing = [name for name, n in (
+            ("holders initialised with a CPU feature set", sum(v for k, v in dicts["init_by"].items() if "features" in k and not k.startswith("probes/"))),
+            ("probes on holders initialised with a CPU feature set", sum(v for k, v in dicts["init_by"].items() if k.startswith("probes/") and "init(env,base)" not in k)),
+            ("compiler probes whose output depends on the holder's CPU features", tot["feat_sensitive"]),
+            ("probes behind a clean of user-set .text section fields", tot["probes_after_tweak"]),
+            ("compiler functions with a non-default calling convention", sum(v for k, v in dicts["fn_cc"].items() if not k.endswith("/cdecl"))),
+            ("compiler functions with AVX / AVX-512 / preserved FP", sum(v for k, v in dicts["fn_variants"].items() if "/avx" in k or "/fp" in k)),
+            ("append probes behind functions compiled under other settings", tot["append_behind_other_variant"]),
+            ("arena resets seen by the arena watch", aw.get("resets_with_retained_memory", 0)),
+            ("arena blocks quarantined", aw.get("blocks_quarantined", 0)),
+            ("pokes of detached emitters", tot["pokes"]),
+            ("pokes of detached emitters with an own error handler", tot["pokes_own_eh"]),
+            ("programs generated in a second holder and compared", tot["away_compared"]),
+            ("programs of the second holder spanning a clean of the first", tot["away_spanning_clean"]),
+        ) if n == 0]
+        if nothing:
+            raise common.HarnessError("dimension(s) observed nothing: " + "; ".join(nothing))
     if rc == 0 and len(distinct_res) < 2:
         raise common.HarnessError("address independence not examined: every compared run had its .text buffer on the same residue "
                                   "mod 64 (%s) - no variation of the buffer address was achieved" % distinct_res)
